@@ -42,10 +42,16 @@ def main():
             orig = target.read_text()
             target.write_text(texts[key])
             env = dict(os.environ, PYTHONPATH=wt, PYTHONDONTWRITEBYTECODE="1")
-            p = subprocess.run(["/venv/bin/python", "-m", "pytest", "-q", "-x", "-p", "no:cacheprovider", "--timeout=300", "-n", os.environ.get("GAP_JOBS", "8"),
+            try:
+                p = subprocess.run(["/venv/bin/python", "-m", "pytest", "-q", "-x", "-p", "no:cacheprovider", "--timeout=300", "-n", os.environ.get("GAP_JOBS", "8"),
                                 "--deselect", "tests/test_examples.py", "--ignore", "tests/test_interrupt.py",
                                 "--deselect", "tests/test_usage.py::test_cgroup_memory_sampler_tracks_peak", "tests"],
-                               cwd=wt, env=env, capture_output=True, text=True)
+                               cwd=wt, env=env, capture_output=True, text=True, timeout=1200)
+            except subprocess.TimeoutExpired:
+                # a mutant that makes the suite hang is noticed by the tests
+                results.append(dict(r, tests_pass=False, tail="timeout", first_fail="timeout"))
+                target.write_text(orig)
+                continue
             tail = (p.stdout.strip().splitlines() or ["?"])[-1]
             first_fail = next((l for l in p.stdout.splitlines() if l.startswith("FAILED") or l.startswith("ERROR")), "")
             results.append(dict(r, tests_pass=(p.returncode == 0), tail=tail[:120], first_fail=first_fail[:160]))
